@@ -209,6 +209,45 @@ def cred_worker(job):
         return agent.reply(req, [])
     for kind, n in job["cases"]:
         name = "".join(rng.choice("abcdefghijklmnopqrstuvwxyz0123456789") for _ in range(n))
+        if kind == "bigreply":
+            # a well-formed reply longer than the receive buffer (n octets in one datagram): it cannot be complete in the
+            # buffer, so the call must fail (documented exception) - never return a value pieced together from beyond it
+            cfg = rng.choice([rigp.Cfg("v2c", client=cl) for cl in ("sync", "async")] + [rigp.Cfg("v3", engine_given=True, client="sync")])
+            st_big = {"n": n}
+
+            def bh(agent, req, st_big=st_big):
+                if not req.ok:
+                    return None
+
+                def f(q):
+                    base = len(agent.reply(q, [B.enc_varbind((1, 3, 6, 1, 2, 1, 1, 5, 0), B.enc_octets(b""))]))
+                    fill = st_big["n"] - base
+                    for _ in range(4):   # length octets grow with the filler: adjust until exact
+                        dg = agent.reply(q, [B.enc_varbind((1, 3, 6, 1, 2, 1, 1, 5, 0), B.enc_octets(b"Z" * max(0, fill)))])
+                        if len(dg) == st_big["n"]:
+                            break
+                        fill -= len(dg) - st_big["n"]
+                    st_big["sent_len"] = len(dg)
+                    return dg
+                return agent.discovery_or(req, f)
+            agent = rigp.Agent(bh, users=[cfg.user_keys()]).start()
+            drv = driver.Driver(cfg, agent, timeout=2.0).create()
+            drv.call("open")
+            out = drv.call("get", "1.3.6.1.2.1.1.5.0")
+            res["requests"] += 1
+            res["sent"] += 1
+            if st_big.get("sent_len") != n:
+                res["inconclusive"].append("big reply of %s octets instead of %d" % (st_big.get("sent_len"), n))
+            elif out[0] == "ok" and n > LIMIT:
+                res["bad"].append({"sig": "oversize-reply-accepted", "msg": "[%s] a reply datagram of %d octets (receive buffer %d) was accepted: get() returned %d octets: %s" % (
+                    cfg.key(), n, LIMIT, len(out[1]) if isinstance(out[1], (bytes, str)) else -1, repr(out[1])[-60:]), "cfgkey": cfg.key()})
+            elif out[0] == "exc" and driver.classify_exc(out[1]) == "panic":
+                res["bad"].append({"sig": "oversize-reply-panic", "msg": "[%s] reply of %d octets: %s" % (cfg.key(), n, out[1]["cls"]), "cfgkey": cfg.key()})
+            elif n <= LIMIT and out[0] != "ok":
+                res["bad"].append({"sig": "fitting-reply-refused", "msg": "[%s] a reply datagram of %d octets (fits the receive buffer) was not delivered: %s" % (cfg.key(), n, repr(out)[:120]), "cfgkey": cfg.key()})
+            agent.stop()
+            drv.close()
+            continue
         if kind.startswith("op:"):
             # every request type through every security level: nesting lengths are judged after decryption too
             # (a PDU header that is only wrong when something was pushed into the buffer before it shows nowhere else)
@@ -380,6 +419,7 @@ def main():
         outs = runner.run_workers("checks.c17", "worker", jobs, variant=variant, timeout=3000)
         cj = [{"seed": a.seed + i, "cases": [(k, n) for k in ("community", "user") for n in
                                               ([0, 1, 127, 128, 255, 256, 1000] + list(range(3960 + i, 4110, 8)))] +
+               [("bigreply", n) for n in (4000 + i, 4079, 4080, 4081, 4082 + i, 4096, 4200 + 100 * i, 8000 + i, 20000)] +
                [("op:" + op, n) for op in ("get", "get_many", "getnext1", "getbulk1", "fetch1") for n in (1 + i, 9 + i, 40 + i, 100 + i, 120 + i // 2)]} for i in range(8)]
         outs2 = runner.run_workers("checks.c17", "cred_worker", cj, variant=variant, timeout=3000)
         s = {"requests": 0, "sent": 0, "refused": 0, "band": 0, "unreachable": 0, "after_failure_ok": 0, "cred_requests": 0}
